@@ -28,29 +28,30 @@ def main():
     try:
         rc, out = sh(["git", "-C", "/repo", "worktree", "add", "-q", "--detach", wt, "HEAD"])
         assert rc == 0, out
-        # demo without the patch
-        demo_files = [f for f in os.listdir(sd) if f.endswith(".go")]
-        def place_demo():
-            for f in meta.get("demo_files", []):
-                dst = os.path.join(wt, f["dest"])
-                os.makedirs(os.path.dirname(dst), exist_ok=True)
-                shutil.copyfile(os.path.join(sd, f["src"]), dst)
-        place_demo()
-        demo_cmd = meta["demo_cmd"]
-        rc0, out0 = sh(demo_cmd, cwd=wt, env=env)
+        # the demo command was written for the author's own worktree: re-root it on the scratch worktree
+        import re
+        m = re.search(r"/tmp/seed/[A-Za-z0-9_-]+", meta["demo_cmd"])
+        orig_root = m.group(0) if m else None
+        demo_cmd = meta["demo_cmd"].replace(orig_root, wt) if orig_root else meta["demo_cmd"]
+        so_src = os.path.dirname(sd) if os.path.basename(os.path.dirname(sd)) == "seed_out" else sd
+        def with_seed_out(f):
+            shutil.copytree(so_src, os.path.join(wt, "seed_out"), dirs_exist_ok=True)
+            try:
+                return f()
+            finally:
+                sh(["git", "clean", "-fdq"], cwd=wt)   # removes seed_out/ and the copied demo files
+        rc0, out0 = with_seed_out(lambda: sh(demo_cmd, cwd=wt, env=env))
         res["demo_without_patch_passes"] = rc0 == 0
+        if rc0 != 0:
+            res["demo_without_tail"] = out0[-400:]
         rc, out = sh(["git", "apply", os.path.join(sd, "patch.diff")], cwd=wt)
         res["patch_applies"] = rc == 0
         if rc != 0:
             res["error"] = out[-500:]
             return res
-        rc1, out1 = sh(demo_cmd, cwd=wt, env=env)
+        rc1, out1 = with_seed_out(lambda: sh(demo_cmd, cwd=wt, env=env))
         res["demo_with_patch_fails"] = rc1 != 0
         res["demo_tail"] = out1[-400:]
-        # remove demo files before build/test of the suite (demo is not part of the change)
-        for f in meta.get("demo_files", []):
-            try: os.remove(os.path.join(wt, f["dest"]))
-            except OSError: pass
         rc, out = sh("go build ./... && go test -vet=off -count=1 ./...", cwd=wt, env=env)
         res["suite_passes_with_patch"] = rc == 0
         if rc != 0:
